@@ -137,8 +137,8 @@ func TestPropNormalisationPreservesMatching(t *testing.T) {
 
 // TestPropExhaustiveLists: every list of length <=3 over {a,-a,b,-b,*,""} in each of the seven list fields.
 func TestPropExhaustiveLists(t *testing.T) {
-	sub := stats.NewSub("exhaustive-field-lists", "enumeration: every list of length 0..3 over {a,-a,b,-b,*,\"\"} (259 lists) placed in each of the seven list fields of an otherwise match-all rule, admitted by the real plugin, compared on request values {a,b,c,\"\"} (and groups {a,z},{a,b},{}); non-trivial = list has '*' among other entries, mixed entries or duplicates")
-	alpha := []string{"a", "-a", "b", "-b", "*", ""}
+	sub := stats.NewSub("exhaustive-field-lists", "enumeration: every list of length 0..3 over {a,-a,b,-b,*,\"\",a*,-a*,ab,-ab} (1111 lists; a trailing * is a pattern only in users and nonResourceURLs, a literal elsewhere) placed in each of the seven list fields of an otherwise match-all rule, admitted by the real plugin, compared on request values {a,b,c,\"\",ab,a*} (and groups {a,z},{a,b},{}); non-trivial = list has '*' among other entries, mixed entries or duplicates")
+	alpha := []string{"a", "-a", "b", "-b", "*", "", "a*", "-a*", "ab", "-ab"}
 	var lists [][]string
 	var rec func(cur []string, depth int)
 	rec = func(cur []string, depth int) {
@@ -162,7 +162,7 @@ func TestPropExhaustiveLists(t *testing.T) {
 		"nonResourceURLs": func(r *proxyv1alpha1.DispatchPolicyRule, l []string) { r.NonResourceURLs = l },
 	}
 	var reqs []gen.Request
-	for _, v := range []string{"a", "b", "c", ""} {
+	for _, v := range []string{"a", "b", "c", "", "ab", "a*"} {
 		for _, g := range [][]string{nil, {"a", "z"}, {"a", "b"}, {v}} {
 			reqs = append(reqs,
 				gen.Request{Resource: true, Verb: v, APIGroup: v, Res: v, Name: v, User: v, Groups: g},
